@@ -33,9 +33,9 @@ theorem sim_prim (n : Nat) (p : Prim) : ExprSim P P' (n + 1) (.prim p) := by
 
 theorem sim_tag (n : Nat) (i : Nat) (t : Ty) : ExprSim P P' (n + 1) (.tag i t) := by
   intro e' Γ S T ρ ρ' w w' s hs _ hw _
-  obtain ⟨t', rfl, rfl⟩ := simE_tag_inv hs
-  rw [eval_tag]
-  exact ⟨.ok (.enumV "" i []) w', stable_succ (k := 0) (fun m _ => eval_tag m P' ρ' w' i t'),
+  obtain ⟨t', rfl, hk, rfl⟩ := simE_tag_inv hs
+  rw [eval_tag, hk]
+  exact ⟨.ok (.enumV (tagTyName t') i []) w', stable_succ (k := 0) (fun m _ => eval_tag m P' ρ' w' i t'),
     VRel.enumV .nil, HasShape.any _, hw⟩
 
 theorem fieldsOk_hasShape {n : String} : ∀ (ss : List Shape) (j : Nat) (vs' : List Val),
@@ -235,6 +235,9 @@ theorem scAnd_rel {op : BinOp} {a a' : Val} (h : VRel P P' a a') : scAnd op a' =
 theorem scOr_rel {op : BinOp} {a a' : Val} (h : VRel P P' a a') : scOr op a' = scOr op a := by
   cases h <;> cases op <;> rfl
 
+theorem logicalNonBool_rel {op : BinOp} {a a' : Val} (h : VRel P P' a a') : logicalNonBool op a' = logicalNonBool op a := by
+  cases h <;> cases op <;> rfl
+
 theorem sim_bin {n : Nat} (ih : SimAt P P' n) (op : BinOp) (t : Ty) (l r : Expr) :
     ExprSim P P' (n + 1) (.bin op t l r) := by
   intro e' Γ S T ρ ρ' w w' s hs hρ hw hg
@@ -243,7 +246,7 @@ theorem sim_bin {n : Nat} (ih : SimAt P P' n) (op : BinOp) (t : Ty) (l r : Expr)
   refine lift_shift (fun m => eval_bin m P' ρ' w' op t' l' r') ?_
   refine sim_bind0 ih (ResRel.failClosed _) h1 hρ hw ?_ hg
   intro a a' w1 w1' ha _ hw1 _ hgK
-  simp only [scAnd_rel (op := op) ha, scOr_rel (op := op) ha]
+  simp only [scAnd_rel (op := op) ha, scOr_rel (op := op) ha, logicalNonBool_rel (op := op) ha]
   by_cases hA : scAnd op a = true
   · simp only [hA, if_true] at hgK ⊢
     exact ⟨_, ⟨0, fun _ _ => rfl⟩, VRel.bool false, HasShape.any _, hw1⟩
@@ -251,6 +254,9 @@ theorem sim_bin {n : Nat} (ih : SimAt P P' n) (op : BinOp) (t : Ty) (l r : Expr)
     · simp only [hA, hO, if_true] at hgK ⊢
       exact ⟨_, ⟨0, fun _ _ => rfl⟩, VRel.bool true, HasShape.any _, hw1⟩
     · simp only [hA, hO] at hgK ⊢
+      by_cases hL : logicalNonBool op a = true
+      · simp only [hL, if_true] at hgK; exact absurd hgK not_good_stuck
+      simp only [hL] at hgK ⊢
       refine sim_bind0 ih (ResRel.failClosed _) h2 hρ hw1 ?_ hgK
       intro b b' w2 w2' hb _ hw2 _ _
       have hr := binop_rel (P := P) (P' := P') op ha hb
